@@ -242,7 +242,18 @@ def build(src):
             d, s = rm({11}), rm({11})
         else:                       # binary mode: ADD A,Rn ...
             d, s = rm({11}), rm()
-        add(m + " Rm,Rm", m + " {0},{1}", [d, s], (lambda o: lambda c: [o, c[0] << 4 | c[1]])(op), NEW)
+        if src and m == "MOV":
+            # source mode: AS writes MOV R11,Rn / MOV Rn,R11 (n < 8) as the escaped 51 instructions MOV A,Rn / MOV Rn,A
+            # (A5 E8+n / A5 F8+n) - same length, same effect as 7C Bn / 7C nB; both are Intel's encodings
+            def movrr(c, o=op):
+                if c[0] == 11 and c[1] < 8:
+                    return [0xA5, 0xE8 + c[1]]
+                if c[1] == 11 and c[0] < 8:
+                    return [0xA5, 0xF8 + c[0]]
+                return [o, c[0] << 4 | c[1]]
+            add(m + " Rm,Rm", m + " {0},{1}", [d, s], movrr, NEW)
+        else:
+            add(m + " Rm,Rm", m + " {0},{1}", [d, s], (lambda o: lambda c: [o, c[0] << 4 | c[1]])(op), NEW)
         add(m + " WRj,WRj", m + " {0},{1}", [wr(), wr()], (lambda o: lambda c: [o + 1, c[0] << 4 | c[1]])(op), NEW)
         if m in ("ADD", "MOV", "SUB", "CMP"):
             add(m + " DRk,DRk", m + " {0},{1}", [dr(), dr()], (lambda o: lambda c: [o + 3, c[0] << 4 | c[1]])(op), NEW)
